@@ -263,24 +263,26 @@ PROPS["C19"] = dict(
 )
 
 PROPS["C12"] = dict(
-    technique="Coq invariant proofs over every call history (induction over the list of calls) on an API-level state machine of tlcp.Conn (handshake status, the two latched half-connection errors, closeNotifySent, closed bit, buffered plaintext, c.rawInput against the transport, look-ahead for close_notify) + correspondence: call histories issued one call at a time on real client and server connections whose peer is the puppet, and on real client/server pairs",
+    technique="Coq invariant proofs over every call history (induction over the list of calls) on an API-level state machine of tlcp.Conn (handshake status, the two latched half-connection errors, the connection-wide fatal latch, closeNotifySent, closed bit, buffered plaintext, c.rawInput against the transport, look-ahead for close_notify) + correspondence: call histories issued one call at a time on real client and server connections whose peer is the puppet, and on real client/server pairs",
     level_text="Theorems over every history of Read / Write / CloseWrite / Close / Handshake / HandshakeContext calls interleaved with arriving records of every kind, the end of the "
                "transport on or inside a record and the peer going away (end-of-stream only after all data and only after close_notify or a clean end; unexpected-EOF only after a truncated "
-               "record; an honest stream's end is reported after every byte by Reads with any non-zero buffers; errors stay reported after Close, on each half, after a failed or cancelled handshake, after "
+               "record; an honest stream's end is reported after every byte by Reads with any non-zero buffers; errors stay reported after Close, on each half and across the halves (any error returned by Read but end-of-stream stops Write, any error returned by Write but shutdown stops Read), after a failed or cancelled handshake, after "
                "CloseWrite; early application data never accepted; cancellation returns the context error and closes the transport) proved in Coq; the model must predict the result class, the bytes delivered, the alerts and application data sent, the transport-closed "
                "and handshake-complete flags of every call of generated histories run against real connections (puppet peer; real peer with each end's arrivals taken from the other end's output), and a property-level predicate that does not use the model's step function is "
                "evaluated on the implementation's own results.",
     level_note="Trusted: Coq kernel + vm_compute; hand-written model tied by correspondence; the handshake protocol itself is a parameter of the model (C08/C02/C07 analyse it); calls are sequential "
-               "(C13 owns concurrency); record protection is the puppet's (C04/C05 check it). K10 (errors are latched per half: Write still succeeds after a fatal alert was received or the "
-               "transport was truncated, Read still delivers after a failed transport write) and K11 (buffered application data is delivered after Read returned the no_renegotiation error) are "
-               "known findings, proved as _refuted theorems on the model and reported as KNOWN-FINDING. Handshake() after Close of a completed connection returns the latched nil (design interpretation).",
+               "(C13 owns concurrency); record protection is the puppet's (C04/C05 check it). K10 (errors were latched per half: Write still succeeded after a fatal alert was received or the "
+               "transport was truncated, Read still delivered after a failed transport write) and K11 (buffered application data was delivered after Read returned the no_renegotiation error) were "
+               "found by this check and are fixed in 46481b8 (connection-wide latch tlcp.Conn.fatal): the model follows the fix, C12_sticky holds without their exceptions, their histories stay in the harness corpus and "
+               "a regression is reported as an ordinary violation (read-/write-succeeded-after-fatal-error). Left out on purpose (premises of C12_sticky, shown needed by C12_sticky_premises_needed): end-of-stream is not fatal (Write goes on: half-close), "
+               "Write's shutdown error after CloseWrite does not stop Read, a call that would block / times out is not latched, Read with an empty buffer returns (0, nil) on an established connection, "
+               "Handshake() on a completed connection returns the latched nil also after Close or a fatal error (design interpretation, C13).",
     code_names={1: "eof-before-all-data", 2: "eof-without-close-notify-or-clean-end", 3: "unexpected-eof-without-truncated-record",
-                4: "read-or-write-succeeded-after-close", 5: "read-delivered-data-after-no-renegotiation-error",
-                6: "write-succeeded-after-error-received-on-read-half", 7: "read-succeeded-after-end-of-stream", 8: "failed-handshake-later-succeeded",
+                4: "read-or-write-succeeded-after-close", 7: "read-succeeded-after-end-of-stream", 8: "failed-handshake-later-succeeded",
                 9: "second-close-not-reported-closed", 10: "write-after-closewrite-succeeded", 11: "early-application-data-accepted",
                 12: "delivered-bytes-not-a-prefix-of-what-the-peer-wrote", 13: "cancelled-handshake-without-context-error-or-transport-left-open",
                 14: "application-data-sent-after-close", 15: "read-succeeded-after-fatal-error", 16: "write-succeeded-after-fatal-error",
-                17: "read-succeeded-after-failed-transport-write", "hang": "hang"},
+                "hang": "hang"},
     assumptions=[
         "calls on one connection are sequential; a record becomes readable as a whole except for the last one before the end of the transport",
         "fewer than bytes.MinRead (512) bytes are pending whenever the endpoint fetches from the transport, so one fetch takes everything that has arrived (the look-ahead for close_notify depends on it)",
